@@ -63,4 +63,15 @@ PROPS = {
         status="full (values_roundtrip, range_read for every store shape, summary bounds / partition independence)",
         assumptions=["pickle + Blosc round-trip a chunk's value list unchanged (exercised, not modelled)", "sys.getsizeof is an input of the writer model"],
     ),
+    "C12": dict(
+        units=[],
+        props_files=["Props/C12.v"],
+        driver="c12",
+        rule="(a) generated (contig, position, length) columns stored in the narrowest / wider integer dtypes, END-style spans, "
+        "nested spans, small coordinates; every chunk size in {1,2,3,n,n+1,random}; real create_index vs model and vs the "
+        "specification rows (check_C12); (b) generated VCFs with END through convert. distinct = distinct case document; "
+        "non-trivial = more than one contig or more than one chunk",
+        status="full for pos+len-1 within int32 (the coordinate space of VCF/BCF)",
+        assumptions=["numpy promotes int32 + intN (N<=32) to int32 and wraps; zarr .blocks returns the variant chunks in order"],
+    ),
 }
